@@ -94,6 +94,12 @@ fn field_type(r: &mut Rng, ptr: u128, known: &[Known], m: usize, uses: &mut Vec<
 }
 /// how module `m` names type `k`: directly (same module), or through a by-name or by-module import
 fn refer(k: &Known, m: usize, uses: &mut Vec<String>, mods: &[&str], r: &mut Rng) -> String {
+    if k.name == "void" {
+        // the built-in wins over the same module and over module imports; only `use path::void;` selects the user type
+        let by_name = format!("use {}::void;", mods[k.module]);
+        if !uses.contains(&by_name) { uses.push(by_name); }
+        return k.name.clone();
+    }
     if k.module != m {
         let by_name = format!("use {}::{};", mods[k.module], k.name);
         let by_mod = format!("use {};", mods[k.module]);
@@ -118,9 +124,10 @@ pub fn program(seed: u64, index: u64, ptr: usize) -> Vec<(&'static str, String)>
         let m = r.below(mods.len());
         counter += 1;
         // names: mostly unique, sometimes the same name in another module, sometimes raw
-        let name = match r.below(12) {
+        let name = match r.below(14) {
             0 => "Shared".to_string(),
             1 => "r#type".to_string(),
+            2 => "void".to_string(),   // a user type named like a built-in: only reachable through a by-name import
             _ => format!("T{counter}"),
         };
         if known.iter().any(|k| k.module == m && k.name == name) {
@@ -141,7 +148,7 @@ pub fn program(seed: u64, index: u64, ptr: usize) -> Vec<(&'static str, String)>
             if r.chance(1, 3) { attrs.push("copyable".to_string()); }
             if r.chance(1, 4) { attrs.push("cloneable".to_string()); }
             if defaultable { attrs.push("defaultable".to_string()); }
-            if r.chance(1, 5) { attrs.push(format!("singleton(0x{:X})", 0x1000 + r.below(0x100000) * 8)); }
+            if r.chance(1, 5) { attrs.push(format!("singleton(0x{:X})", 0x1000 + r.below(0x100000) * 8 + if r.chance(1, 3) { 0x1_4000_0000 } else { 0 })); }
             out.push_str(&doc(&mut r, ""));
             if !attrs.is_empty() { out.push_str(&format!("#[{}]\n", attrs.join(", "))); }
             out.push_str(&format!("{}enum {}: {} {{\n", vis(&mut r), name, base));
@@ -251,7 +258,7 @@ pub fn program(seed: u64, index: u64, ptr: usize) -> Vec<(&'static str, String)>
             }
             if r.chance(1, 4) { attrs.push("copyable".to_string()); }
             if r.chance(1, 5) { attrs.push("cloneable".to_string()); }
-            if r.chance(1, 6) && off > 0 { attrs.push(format!("singleton(0x{:X})", 0x2000 + r.below(0x100000) * 8)); }
+            if r.chance(1, 6) && off > 0 { attrs.push(format!("singleton(0x{:X})", 0x2000 + r.below(0x100000) * 8 + if r.chance(1, 3) { 0x7FF0_0000_0000 } else { 0 })); }
             out.push_str(&doc(&mut r, ""));
             out.push_str(&format!("#[{}]\n", attrs.join(", ")));
             out.push_str(&format!("{}type {} {{\n{}}}\n", vis(&mut r), name, fields));
@@ -285,7 +292,7 @@ pub fn program(seed: u64, index: u64, ptr: usize) -> Vec<(&'static str, String)>
         bodies[m].push_str(&out);
         // extern value now and then
         if r.chance(1, 6) {
-            bodies[m].push_str(&format!("#[address(0x{:X})]\n{}extern ev{counter}: *mut u8;\n", 0x9000 + counter * 8, vis(&mut r)));
+            bodies[m].push_str(&format!("#[address(0x{:X})]\n{}extern ev{counter}: *mut u8;\n", 0x9000 + counter * 8 + if r.chance(1, 3) { 0x2_0000_0000 } else { 0 }, vis(&mut r)));
         }
     }
     let mut res = vec![];
@@ -294,6 +301,7 @@ pub fn program(seed: u64, index: u64, ptr: usize) -> Vec<(&'static str, String)>
         if r.chance(1, 4) { text.push_str("//! module docs\n//!\n"); }
         for u in &uses[i] { text.push_str(u); text.push('\n'); }
         if r.chance(1, 5) { text.push_str(&format!("backend rust prologue r#\"\n    const PRO_{i}: u32 = {i}; // c\n\"#;\nbackend other epilogue r#\"\n    const FOREIGN_{i}: u32 = 0;\n\"#;\n")); }
+        if r.chance(1, 6) { text.push_str(&format!("backend rust {{\n    prologue r#\"const PRO2_{i}: u32 = 2; // second block\"#;\n    epilogue r#\"const EPI_{i}: u32 = 3;\n// end\"#;\n}}\nbackend rust epilogue r#\"\n    const EPI2_{i}: u32 = 4;\n\"#;\n")); }
         text.push_str(&bodies[i]);
         res.push((*path, text));
     }
